@@ -180,3 +180,105 @@ Proof.
     rewrite firstn_all2 by (rewrite overwrite_all_length; rewrite !firstn_length; lia).
     rewrite <- Hgl at 2. rewrite firstn_all. rewrite <- Hbl at 1. rewrite firstn_all. reflexivity.
 Qed.
+
+(* ---- Marshal ---- *)
+Definition enc_setting (s : setting) : bytes :=
+  let '(t, c, p, f) := s in to_be 2 (Z.to_N (f_DataIdentifier_Uint16 t c p)) ++ to_be 2 (Z.to_N f).
+
+Definition setting_wire_ok (s : setting) : Prop :=
+  let '(t, c, p, f) := s in 0 <= f_DataIdentifier_Uint16 t c p /\ 0 <= f < 65536.
+
+Lemma put16_at prefix rest v : 0 <= v ->
+  g_put16 (prefix ++ 0%N :: 0%N :: rest) (Z.of_nat (length prefix)) v = Val (prefix ++ to_be 2 (Z.to_N v) ++ rest).
+Proof.
+  intros Hv. unfold g_put16, g_len. rewrite app_length. cbn [length].
+  destruct (Z.ltb_spec (Z.of_nat (length prefix)) 0); [lia|].
+  destruct (Z.ltb_spec (Z.of_nat (length prefix + S (S (length rest)))) (Z.of_nat (length prefix) + 2)); [lia|]. cbn [orb].
+  rewrite Nat2Z.id. rewrite (upd_at (length prefix) prefix _ _ _ eq_refl).
+  change (prefix ++ g_byte (v / 256 mod 256) :: 0%N :: rest) with (prefix ++ [g_byte (v / 256 mod 256)] ++ 0%N :: rest).
+  rewrite app_assoc. rewrite (upd_at (length prefix + 1) (prefix ++ [g_byte (v / 256 mod 256)]) _ _ _ ltac:(rewrite app_length; reflexivity)).
+  rewrite <- app_assoc. cbn [app to_be]. f_equal. f_equal. f_equal; [unfold g_byte; lia|].
+  f_equal. unfold g_byte. lia.
+Qed.
+
+Lemma firstn_snoc {A} (l : list A) k d : (k < length l)%nat -> firstn (S k) l = firstn k l ++ [nth k l d].
+Proof.
+  revert k; induction l as [|a l IH]; intros k H; [cbn in H; lia|]. destruct k; [reflexivity|].
+  change (firstn (S (S k)) (a :: l)) with (a :: firstn (S k) l). rewrite (IH k) by (cbn in H; lia). reflexivity.
+Qed.
+
+Definition mbody (o : list setting * Z) (v_i : Z) (t1 : bytes) : R bytes :=
+  let v_buf := t1 in
+  do v_setting <- g_oget o v_i;
+  do v_buf <- g_put16 v_buf (v_i * 4) (let '(dt_, cs_, pr_, _) := v_setting in f_DataIdentifier_Uint16 dt_ cs_ pr_);
+  do v_buf <- g_put16 v_buf (v_i * 4 + 2) (wrap_u 16 (let '(_, _, _, fr_) := v_setting in fr_));
+  Val v_buf.
+
+Lemma flat_map_len_enc cfg : length (flat_map enc_setting cfg) = (4 * length cfg)%nat.
+Proof.
+  induction cfg as [|[[[t c] p] f] cfg IH]; [reflexivity|]. cbn [flat_map length]. rewrite app_length, IH.
+  unfold enc_setting. rewrite app_length. cbn [to_be app length]. lia.
+Qed.
+
+Lemma mloop bk n : (n <= length bk)%nat -> Forall setting_wire_ok (firstn n bk) ->
+  forall m k, (k + m = n)%nat ->
+  g_for_n m (Z.of_nat k) (flat_map enc_setting (firstn k bk) ++ repeat 0%N (4 * (n - k))) (mbody (bk, Z.of_nat n)) =
+  Val (flat_map enc_setting (firstn n bk)).
+Proof.
+  intros Hn Hok. induction m as [|m IH]; intros k Hk.
+  - cbn [g_for_n]. replace k with n by lia. rewrite Nat.sub_diag. cbn [Nat.mul repeat]. rewrite app_nil_r. reflexivity.
+  - cbn [g_for_n]. unfold mbody at 1. cbv zeta. unfold g_oget, g_olen, snd, fst.
+    destruct (Z.ltb_spec (Z.of_nat k) 0); [lia|]. destruct (Z.leb_spec (Z.of_nat n) (Z.of_nat k)); [lia|]. cbn [orb rbind].
+    rewrite Nat2Z.id. change gzero with zero_setting. unfold setting in *.
+    assert (Hs : setting_wire_ok (nth k bk zero_setting)).
+    { rewrite Forall_forall in Hok. apply Hok. rewrite <- (firstn_skipn k (firstn n bk)).
+      rewrite firstn_firstn, Nat.min_l by lia. apply in_or_app. right.
+      rewrite (skipn_cons_nth (firstn n bk) k zero_setting) by (rewrite firstn_length; lia). left.
+      clear - Hk Hn. revert k n Hk Hn. induction bk as [|b bk IHb]; intros k n Hk Hn; [cbn in Hn; lia|].
+      destruct n; [lia|]. destruct k; [reflexivity|]. cbn [firstn nth]. apply IHb; cbn [length] in Hn; lia. }
+    destruct (nth k bk zero_setting) as [[[t c] p] f] eqn:En. destruct Hs as [Hw Hf].
+    set (P := flat_map enc_setting (firstn k bk)).
+    assert (HP : length P = (4 * k)%nat) by (unfold P; rewrite flat_map_len_enc, firstn_length; lia).
+    replace (4 * (n - k))%nat with (S (S (S (S (4 * (n - S k)))))) by lia. cbn [repeat].
+    replace (Z.of_nat k * 4) with (Z.of_nat (length P)) by lia.
+    rewrite put16_at by exact Hw. cbn [rbind].
+    replace (Z.of_nat (length P) + 2) with (Z.of_nat (length (P ++ to_be 2 (Z.to_N (f_DataIdentifier_Uint16 t c p))))) by (rewrite app_length; cbn [to_be app length]; lia).
+    rewrite app_assoc.
+    rewrite put16_at by (unfold wrap_u; change (2 ^ 16) with 65536; lia). cbn [rbind].
+    replace (Z.of_nat k + 1) with (Z.of_nat (S k)) by lia.
+    match goal with |- g_for_n m _ ?b _ = _ =>
+      replace b with (flat_map enc_setting (firstn (S k) bk) ++ repeat 0%N (4 * (n - S k))) end.
+    + apply IH. lia.
+    + rewrite (firstn_snoc bk k zero_setting) by lia. rewrite flat_map_app. fold P. rewrite <- !app_assoc. f_equal.
+      cbn [flat_map]. rewrite En. unfold enc_setting. rewrite app_nil_r. rewrite <- !app_assoc. f_equal. f_equal.
+      unfold wrap_u. change (2 ^ 16) with 65536. rewrite Z.mod_small by lia. reflexivity.
+Qed.
+
+Theorem marshal_conf_agrees bk n : (n <= length bk)%nat -> Forall setting_wire_ok (firstn n bk) ->
+  g_OutputConfiguration_Marshal (bk, Z.of_nat n) = Val (outconf_marshal (firstn n bk), None).
+Proof.
+  intros Hn Hok. unfold g_OutputConfiguration_Marshal, g_olen, snd, g_make.
+  destruct (Z.ltb_spec (Z.of_nat n * 4) 0); [lia|]. cbn [rbind].
+  replace (Z.to_nat (Z.of_nat n * 4)) with (4 * (n - 0))%nat by lia.
+  unfold g_for. rewrite Z.sub_0_r, Nat2Z.id.
+  pose proof (mloop bk n Hn Hok n 0%nat ltac:(lia)) as L.
+  match goal with |- context [g_for_n n 0 ?b ?f] =>
+    change (g_for_n n 0 b f) with (g_for_n n (Z.of_nat 0) (flat_map enc_setting (firstn 0 bk) ++ repeat 0%N (4 * (n - 0))) (mbody (bk, Z.of_nat n)))
+  end.
+  rewrite L. cbn [rbind].
+  f_equal.
+Qed.
+
+(* the identifier's wire form is a uint16 whatever the components: only the frequency's range (its Go type) is needed *)
+Definition freq_typed (s : setting) : Prop := let '(_, _, _, f) := s in 0 <= f < 65536.
+Lemma freq_typed_wire_ok s : freq_typed s -> setting_wire_ok s.
+Proof.
+  destruct s as [[[t c] p] f]. unfold freq_typed, setting_wire_ok. intros H. split; [|exact H].
+  unfold f_DataIdentifier_Uint16, wrap_u. apply Z.mod_pos_bound. reflexivity.
+Qed.
+
+Theorem marshal_conf_agrees_typed bk n : (n <= length bk)%nat -> Forall freq_typed (firstn n bk) ->
+  g_OutputConfiguration_Marshal (bk, Z.of_nat n) = Val (outconf_marshal (firstn n bk), None).
+Proof.
+  intros Hn H. apply marshal_conf_agrees; [exact Hn|]. eapply Forall_impl; [|exact H]. exact freq_typed_wire_ok.
+Qed.
